@@ -15,11 +15,14 @@ open TTV TTV.Sexp TTV.AsyncRun
 def exc? : Sexp → Option Exc
   | .atom "err" => some .err | .atom "fail" => some .fail | .atom "skip" => some .skip
   | .atom "ki" => some .ki | .atom "exit" => some .ki      -- KeyboardInterrupt / SystemExit: the same for the runner
+  | .atom "genexit" => some .ki                            -- … and GeneratorExit raised by (or failing the Deferred of) a stage
   | _ => none
 
 def beh? : Sexp → Option Beh
   | .atom "ret" => some .ret
   | .list [.atom "ret", v] => (nat? v).map fun _ => .ret           -- returns the value with token `v`: the model never looks at values
+  | .list [.atom "same", k] => (nat? k).map fun _ => .ret          -- returns the very Deferred an earlier stage returned: it has fired
+                                                                    -- (the runner waited for it), so the stage is over at once
   | .list [.atom "raise", k] => (exc? k).map .raise
   | .list [.atom "fire", d] => (nat? d).map .fire
   | .list [.atom "fire", d, v] => do let _ ← nat? v; (nat? d).map .fire   -- the Deferred fires with the value with token `v`
